@@ -1297,6 +1297,170 @@ pub fn generate(rng: &mut Rng, tier: Tier, emit: &mut dyn FnMut(String)) {
         }
     }
 
+    // variable-length integers cut at EVERY byte: the three components of a duration and the element length
+    // prefixes of vectors with variable-size elements, each with every encoded width (1..9 bytes), the cell (and
+    // every enclosing length) ending exactly 1, 2, ... bytes short of the full integer, down to the lone first byte;
+    // at top level and nested in list / tuple / map / vector / vector-of-vector
+    {
+        fn uv(value: u64, extra: usize) -> Vec<u8> {
+            // unsigned vint of `value` written with exactly `extra` extra bytes (not necessarily the shortest form)
+            if extra == 0 {
+                return vec![(value & 0x7f) as u8];
+            }
+            let mut v = vec![(0xffu16 << (8 - extra)) as u8];
+            v.extend_from_slice(&value.to_be_bytes()[8 - extra..]);
+            v
+        }
+        fn cellb(inner: &[u8]) -> Vec<u8> {
+            let mut o = (inner.len() as i32).to_be_bytes().to_vec();
+            o.extend_from_slice(inner);
+            o
+        }
+        // (type string around `T`, wrapper of the inner value bytes)
+        type Wrap = fn(&[u8]) -> Vec<u8>;
+        fn w_top(i: &[u8]) -> Vec<u8> {
+            i.to_vec()
+        }
+        fn w_list(i: &[u8]) -> Vec<u8> {
+            let mut o = 2i32.to_be_bytes().to_vec();
+            o.extend_from_slice(&cellb(&[0, 0, 0]));
+            o.extend_from_slice(&cellb(i));
+            o
+        }
+        fn w_tuple(i: &[u8]) -> Vec<u8> {
+            let mut o = cellb(&[0, 0, 0, 7]);
+            o.extend_from_slice(&cellb(i));
+            o
+        }
+        fn w_map(i: &[u8]) -> Vec<u8> {
+            let mut o = 1i32.to_be_bytes().to_vec();
+            o.extend_from_slice(&cellb(&[0, 0, 0, 1]));
+            o.extend_from_slice(&cellb(i));
+            o
+        }
+        fn w_vec(i: &[u8]) -> Vec<u8> {
+            // two variable-size elements: a complete one, then the one under test, each behind its length
+            let mut o = uv(3, 0);
+            o.extend_from_slice(&[0, 0, 0]);
+            o.extend_from_slice(&uv(i.len() as u64, 0));
+            o.extend_from_slice(i);
+            o
+        }
+        fn w_vecvec(i: &[u8]) -> Vec<u8> {
+            // outer vector of two inner vectors: a complete inner vector ["a"], then the one under test
+            let mut o = uv(2, 0);
+            o.extend_from_slice(&[1, b'a']);
+            o.extend_from_slice(&uv(i.len() as u64, 1));
+            o.extend_from_slice(i);
+            o
+        }
+        fn w_vec_wide(i: &[u8]) -> Vec<u8> {
+            // … the length of the element under test written as a 3-byte integer
+            let mut o = uv(i.len() as u64, 2);
+            o.extend_from_slice(i);
+            o
+        }
+        fn w_list_vec(i: &[u8]) -> Vec<u8> {
+            let mut o = 1i32.to_be_bytes().to_vec();
+            o.extend_from_slice(&cellb(&w_vec(i)));
+            o
+        }
+        let dur_ctx: [(&str, Wrap); 7] = [
+            ("DurationType", w_top),
+            ("ListType(DurationType)", w_list),
+            ("TupleType(Int32Type,DurationType)", w_tuple),
+            ("MapType(Int32Type,DurationType)", w_map),
+            ("VectorType(DurationType, 2)", w_vec),
+            ("VectorType(DurationType, 1)", w_vec_wide),
+            ("ListType(VectorType(DurationType, 2))", w_list_vec),
+        ];
+        let mut one = |ty: &str, cell: &[u8]| {
+            let mut b = B::default();
+            b.int(2);
+            b.int(1);
+            b.int(1);
+            b.string(b"k");
+            b.string(b"t");
+            b.string(b"c");
+            b.raw(&custom_type_bytes(ty.as_bytes()));
+            b.int(1);
+            b.bytes(cell);
+            emit(case_line(&nofeat, false, 'n', None, &frame_bytes(0, 0, 0x08, &b.out)));
+        };
+        for (ty, wrap) in dur_ctx {
+            for which in 0..3usize {
+                for extra in 0..=8usize {
+                    // the component under test is `extra + 1` bytes wide, the others one byte
+                    let mut full = vec![];
+                    let mut end_of_tested = 0;
+                    for c in 0..3 {
+                        if c == which {
+                            full.extend_from_slice(&uv(0x0102_0304_0506_0708u64 >> (8 * (8 - extra.max(1))) << 1, extra));
+                            end_of_tested = full.len();
+                        } else {
+                            full.extend_from_slice(&uv(2 * (c as u64 + 1), 0));
+                        }
+                    }
+                    one(ty, &wrap(&full));
+                    // every cut inside (and right in front of) the component under test
+                    let start = end_of_tested - (extra + 1);
+                    for cut in start..end_of_tested {
+                        one(ty, &wrap(&full[..cut]));
+                    }
+                    // one byte too many
+                    let mut more = full.clone();
+                    more.push(0);
+                    one(ty, &wrap(&more));
+                }
+                // a lone first byte announcing 1, 2, 7, 8 more bytes, after complete components
+                for first in [0x80u8, 0xc0, 0xe0, 0xfe, 0xff] {
+                    let mut v = vec![2u8; which];
+                    v.push(first);
+                    one(ty, &wrap(&v));
+                }
+            }
+        }
+        // the length prefix of a variable-size vector element, every width, every cut; then the body cut
+        let vec_ctx: [(&str, Wrap); 6] = [
+            ("VectorType(UTF8Type, 1)", w_top),
+            ("ListType(VectorType(UTF8Type, 1))", w_list),
+            ("TupleType(Int32Type,VectorType(UTF8Type, 1))", w_tuple),
+            ("MapType(Int32Type,VectorType(BytesType, 1))", w_map),
+            ("VectorType(VectorType(UTF8Type, 1), 2)", w_vecvec),
+            ("VectorType(VectorType(VectorType(AsciiType, 1), 1), 1)", w_vec_wide),
+        ];
+        for (ty, wrap) in vec_ctx {
+            for extra in 0..=8usize {
+                let mut full = uv(3, extra);
+                full.extend_from_slice(b"abc");
+                for cut in 0..=full.len() {
+                    one(ty, &wrap(&full[..cut]));
+                }
+                // the prefix announces more than the rest of the cell / usize-sized lengths
+                for v in [4u64, 0xff, u64::MAX >> (8 * (8 - extra.max(1))), 1u64 << (8 * extra.max(1) - 1)] {
+                    let mut c = uv(v, extra);
+                    c.extend_from_slice(b"abc");
+                    one(ty, &wrap(&c));
+                }
+            }
+            for first in [0x80u8, 0xc0, 0xe0, 0xfe, 0xff] {
+                one(ty, &wrap(&[first]));
+            }
+        }
+        // two elements: the SECOND element's prefix cut (the iterator is in the middle of the vector)
+        for extra in 1..=8usize {
+            let mut full = uv(1, 0);
+            full.push(b'x');
+            let at = full.len();
+            full.extend_from_slice(&uv(2, extra));
+            full.extend_from_slice(b"yz");
+            for cut in at..full.len() {
+                one("VectorType(UTF8Type, 2)", &full[..cut]);
+                one("ListType(VectorType(UTF8Type, 2))", &w_list(&full[..cut]));
+            }
+        }
+    }
+
     // huge counts in front of (almost) nothing: must be refused without a proportional allocation
     for feats in [nofeat, mid] {
         for count in [i32::MAX, 0x0FFFFFFF, 65536, 1 << 20] {
@@ -1480,6 +1644,159 @@ pub fn generate(rng: &mut Rng, tier: Tier, emit: &mut dyn FnMut(String)) {
         fr.extend_from_slice(&(3u32 << 20).to_be_bytes());
         fr.extend(std::iter::repeat(1u8).take(5 << 19));
         emit(format!("h {}", hex(&fr)));
+    }
+
+    // the type strings of the schema tables (`map_string_to_cql_type`, fetching.rs; nesting limit of fix 7c5e882)
+    {
+        let mut t = |s: &str| emit(format!("t {} {}", if s.is_empty() { "-".to_owned() } else { hex(s.as_bytes()) }, uni_table(s.as_bytes())));
+        // every constructor nested around and far beyond the limit, closed and unclosed; for map / tuple the deep
+        // component first, last, or behind many siblings
+        let towers: [(&str, &str); 12] = [
+            ("frozen<", ">"),
+            ("list<", ">"),
+            ("set<", ">"),
+            ("vector<", ", 3>"),
+            ("vector<", ",0>"),
+            ("map<int, ", ">"),
+            ("map<", ", int>"),
+            ("tuple<", ">"),
+            ("tuple<int, text, ", ">"),
+            ("tuple<", ", int, text>"),
+            ("frozen<list<", ">>"),
+            ("map<frozen<tuple<int, ", ">>, set<uuid>>"),
+        ];
+        for (open, close) in towers {
+            for depth in [0usize, 1, 2, 3, 63, 64, 126, 127, 128, 129, 130, 131, 200, 257, 1000, 5000, 20_000, 100_000] {
+                // mixed prefixes count their own levels: also hit the limit exactly from both sides
+                if depth > 5000 && !matches!(open, "frozen<" | "tuple<" | "map<int, ") {
+                    continue;
+                }
+                for leaf in ["int", "my_udt", ""] {
+                    if depth > 300 && !leaf.is_empty() && leaf != "int" {
+                        continue;
+                    }
+                    let mut s = open.repeat(depth);
+                    s.push_str(leaf);
+                    if depth <= 300 || leaf == "int" {
+                        t(&s);
+                    }
+                    if !(depth > 300 && leaf.is_empty()) {
+                        s.push_str(&close.repeat(depth));
+                        t(&s);
+                    }
+                }
+            }
+        }
+        // many siblings, no nesting; long identifiers; long digit strings
+        for n in [1usize, 2, 100, 10_000] {
+            t(&format!("tuple<{}int>", "int, ".repeat(n)));
+            t(&format!("tuple<{}int", "int,".repeat(n)));
+            t(&format!("{}", "a".repeat(n)));
+            t(&format!("frozen<{}>", "k.$_9".repeat(n)));
+            t(&format!("vector<int, {}3>", "0".repeat(n)));
+            t(&format!("vector<int, {}>", "9".repeat(n)));
+            t(&format!("list<int{}", ">".repeat(n)));
+            t(&format!("{}int", " ".repeat(n)));
+            t(&format!("vector<int{},{}3{}>", " ".repeat(n), " ".repeat(n), " ".repeat(n)));
+        }
+        // well-formed random types, every prefix of them, and single-character edits
+        const NATIVES: [&str; 20] = [
+            "ascii", "boolean", "blob", "counter", "date", "decimal", "double", "duration", "float", "int", "bigint", "text", "timestamp", "inet",
+            "smallint", "tinyint", "time", "timeuuid", "uuid", "varint",
+        ];
+        fn gen_ty(rng: &mut Rng, depth: u32, out: &mut String) {
+            let sp = |rng: &mut Rng| *rng.pick(&["", "", " ", "  ", "\t"]);
+            let k = if depth == 0 { rng.below(3) } else { rng.below(10) };
+            match k {
+                0 | 1 => out.push_str(*rng.pick(&NATIVES)),
+                2 => out.push_str(*rng.pick(&["my_udt", "ks.typ", "a$b", "Int", "frozen", "list", "varchar", "x1", "_", "1a", "t\u{e9}", "\u{4e2d}\u{6587}", "int2", "mapx"])),
+                3 => {
+                    out.push_str("frozen<");
+                    gen_ty(rng, depth - 1, out);
+                    out.push('>');
+                }
+                4 | 5 => {
+                    out.push_str(*rng.pick(&["list<", "set<"]));
+                    gen_ty(rng, depth - 1, out);
+                    out.push('>');
+                }
+                6 => {
+                    out.push_str("map<");
+                    gen_ty(rng, depth - 1, out);
+                    out.push(',');
+                    out.push_str(sp(rng));
+                    gen_ty(rng, depth - 1, out);
+                    out.push('>');
+                }
+                7 | 8 => {
+                    out.push_str("tuple<");
+                    let n = 1 + rng.below(4);
+                    for i in 0..n {
+                        if i > 0 {
+                            out.push(',');
+                            out.push_str(sp(rng));
+                        }
+                        gen_ty(rng, depth - 1, out);
+                    }
+                    out.push('>');
+                }
+                _ => {
+                    out.push_str("vector<");
+                    gen_ty(rng, depth - 1, out);
+                    out.push_str(sp(rng));
+                    out.push(',');
+                    out.push_str(sp(rng));
+                    out.push_str(*rng.pick(&["0", "1", "3", "003", "65535", "65536", "99999", "1536"]));
+                    out.push_str(sp(rng));
+                    out.push('>');
+                }
+            }
+        }
+        for i in 0..400 * scale {
+            let mut s = String::new();
+            let d = 1 + rng.below(4) as u32;
+            gen_ty(rng, d, &mut s);
+            t(&s);
+            if i % 8 == 0 {
+                // every prefix (cut at scalar boundaries)
+                for (k, _) in s.char_indices() {
+                    t(&s[..k]);
+                }
+            }
+            // one scalar replaced / inserted / removed
+            let chars: Vec<char> = s.chars().collect();
+            for _ in 0..3 {
+                let mut c = chars.clone();
+                let k = rng.below(c.len() as u64 + 1) as usize;
+                let ins = *rng.pick(&['<', '>', ',', ' ', '.', '$', '_', '0', 'x', '(', '"', '\\', '\n', '\u{a0}', '\u{2003}', '\u{85}', '\u{e9}', '\u{301}', '\u{661}', '\u{b2}', '\u{10ffff}', '\0']);
+                match rng.below(3) {
+                    0 if k < c.len() => c[k] = ins,
+                    1 if k < c.len() => {
+                        c.remove(k);
+                    }
+                    _ => c.insert(k, ins),
+                }
+                t(&c.into_iter().collect::<String>());
+            }
+        }
+        // fixed malformed shapes
+        for s in [
+            "", " ", "<", ">", ",", "<>", "int>", "int,", "int ", " int", "list", "list<", "list<>", "list<,>", "list<int,>", "list<int>>", "list<int> ",
+            "list <int>", "LIST<int>", "frozen<>", "frozen<frozen<>>", "map<>", "map<int>", "map<int,>", "map<,int>", "map<int;text>", "map<int,text,blob>",
+            "map<int ,text>", "map<int,\u{a0}text>", "map<int,\u{2003}\u{85} text>", "tuple<>", "tuple<,>", "tuple<int,>", "tuple<int,,int>", "tuple<int int>",
+            "tuple<int , int>", "vector<>", "vector<int>", "vector<int,>", "vector<int,x>", "vector<int,-1>", "vector<int,+1>", "vector<int,1.0>",
+            "vector<int,\u{661}>", "vector<int,1\u{661}>", "vector<int, 65535>", "vector<int, 65536>", "vector<int,1,2>", "vector<,3>", "vector<int 3>",
+            "frozen<int", "frozen<int>>", "frozen<my_udt>", "frozen<frozen<list<my.udt>>>", "frozen<tuple<int>>", "frozen<vector<int,2>>", "frozen<map<int,int>>",
+            "\u{e9}", "t\u{e9}<int>", "list<\u{e9}\u{301}>", "\u{301}", "$", ".", "a.b.c", "a..b", "a b", "a\u{a0}b", "\u{ff21}\u{1d7d8}", "int\u{e9}", "in", "intt", "_int",
+            "text\0", "\"quoted\"", "'q'", "org.apache.cassandra.db.marshal.Int32Type", "frozen<org.apache.cassandra.db.marshal.ListType(Int32Type)>",
+        ] {
+            t(s);
+        }
+        for _ in 0..100 * scale {
+            t(&uni_ident(rng));
+            t(&format!("frozen<{}>", uni_ident(rng)));
+            t(&format!("map<{}, {}>", uni_ident(rng), uni_ident(rng)));
+        }
     }
 
     // primitive readers
